@@ -43,5 +43,8 @@ def run(ctx):
                "chunk on the implementation and the reference side; their own lemmas: E-esc (here), R1/R2 (C18)")
     ctx.assume("fixed point (parse(text) marshals to text) is derived: text = REF-RENDER(d) and C01-C04; the only chunk whose re-typed "
                "value renders differently is -0.0 -> '-0' -> int64 0 -> '0' (known finding F10, lemma FP.floattext)")
+    ctx.assume("numerically equal numbers: float text = the shortest-round-trip text strconv computes; the repository's printer against "
+               "strconv (R2, R1.formatF, R1f helpers) are C18's lemmas, run here under this id as well")
     from .. import lemmas_stage2
-    run_lemmas(ctx, multi_root_lemmas(ctx.tier) + lemmas(ctx.tier) + lemmas_stage2.deep_lemmas(ctx.tier))
+    from . import C18
+    run_lemmas(ctx, multi_root_lemmas(ctx.tier) + lemmas(ctx.tier) + lemmas_stage2.deep_lemmas(ctx.tier) + C18.lemmas(ctx.tier))
